@@ -52,6 +52,11 @@ func init() {
 		mutant{"single read of the response", "codec/websocket/stream.go",
 			"\tfor n < len(s.handshakeBuffer) && !bytes.Contains(s.handshakeBuffer[:n], []byte(\"\\r\\n\\r\\n\")) {\n\t\tnn, err := stream.Read(s.handshakeBuffer[n:])\n\t\tif err != nil {\n\t\t\treturn err\n\t\t}\n\t\tn += nn\n\t}",
 			"\t{\n\t\tnn, err := stream.Read(s.handshakeBuffer[n:])\n\t\tif err != nil {\n\t\t\treturn err\n\t\t}\n\t\tn += nn\n\t}", "C18-R5"},
+		mutant{"terminator searched in the newest bytes only", "codec/websocket/stream.go",
+			"\tn := 0\n\tfor n < len(s.handshakeBuffer) && !bytes.Contains(s.handshakeBuffer[:n], []byte(\"\\r\\n\\r\\n\")) {\n\t\tnn, err := stream.Read(s.handshakeBuffer[n:])\n\t\tif err != nil {\n\t\t\treturn err\n\t\t}\n\t\tn += nn\n\t}",
+			"\tn, scanned := 0, 0\n\tfor n < len(s.handshakeBuffer) {\n\t\tnn, err := stream.Read(s.handshakeBuffer[n:])\n\t\tif err != nil {\n\t\t\treturn err\n\t\t}\n\t\tn += nn\n\t\tif bytes.Contains(s.handshakeBuffer[scanned:n], []byte(\"\\r\\n\\r\\n\")) {\n\t\t\tbreak\n\t\t}\n\t\tscanned = n\n\t}", "C18-R5"},
+		mutant{"failed handshake closes the connection inside RawConn.Control", "codec/websocket/stream.go",
+			"\t\t\tif err != nil {\n\t\t\t\tfailed, s.conn = s.conn, nil\n\t\t\t}\n", "\t\t\tif err != nil {\n\t\t\t\t_ = s.CloseNextLayer()\n\t\t\t}\n", "C18-R7"},
 		mutant{"pending frames survive a re-handshake", "codec/websocket/stream.go",
 			"\tfor _, f := range s.pendingFrames {\n\t\ts.releaseFrame(f)\n\t}\n\ts.pendingFrames = s.pendingFrames[:0]\n}", "}", "C18-R6"},
 		mutant{"read buffer survives a re-handshake", "codec/websocket/stream.go",
@@ -285,12 +290,24 @@ func runC18(c *Ctx) {
 		initM := p.Method(ws, "Stream", "init")
 		hs := p.Method(ws, "Stream", "Handshake")
 		ah := p.Method(ws, "Stream", "AsyncHandshake")
+		// the functions that decide the outcome: whoever calls init (Handshake itself, the closure AsyncHandshake posts,
+		// or a helper both share)
 		var sites []*ssa.Function
-		sites = append(sites, hs)
-		for _, f := range withClosures(ah) {
-			if len(callsToFn(f, initM)) > 0 {
+		for _, f := range wsFuncs(p) {
+			if f != initM && len(callsToFn(f, initM)) > 0 {
 				sites = append(sites, f)
 			}
+		}
+		for _, entry := range []*ssa.Function{hs, ah} {
+			reaches := false
+			for _, f := range withClosures(entry) {
+				for _, site := range sites {
+					if f == site || len(callsToFn(f, site)) > 0 {
+						reaches = true
+					}
+				}
+			}
+			c.check(reaches, entry, "outcome decided", entry.Pos(), "reaches the code that turns the handshake result into Terminated / Active+init", "the handshake result is never turned into a stream state: a failed handshake leaves a half-open stream, or an accepted one is never initialised")
 		}
 		for _, fn := range sites {
 			c.touch(fn)
@@ -437,6 +454,7 @@ func runC18(c *Ctx) {
 			n++
 			looped := inLoop(in)
 			term := false
+			window := true
 			eachInstr(upgrade, func(x ssa.Instruction) {
 				ifi, ok := x.(*ssa.If)
 				if !ok || !inLoop(x) {
@@ -460,8 +478,24 @@ func runC18(c *Ctx) {
 				}
 				if sep, ok := constString(bc.Call.Args[1]); ok && sep == "\r\n\r\n" {
 					term = true
+					// the searched window must include bytes of earlier reads: the terminator can straddle two segments.
+					// Accepted: the received prefix buf[:n], or a window that starts at least 3 bytes before the new bytes.
+					if hs, ok := stripConv(bc.Call.Args[0]).(*ssa.Slice); ok && hs.Low != nil && !isConstInt(hs.Low, 0) {
+						backs := false
+						for _, leaf := range phiLeaves(hs.Low) {
+							if bo, ok := stripConv(leaf).(*ssa.BinOp); ok && bo.Op == token.SUB {
+								if k, ok := constInt(bo.Y); ok && k >= 3 {
+									backs = true
+								}
+							}
+						}
+						if !backs {
+							window = false
+						}
+					}
 				}
 			})
+			c.check(window, upgrade, "terminator window", in.Pos(), "the terminator is searched in a window that overlaps earlier reads", "the header terminator is only searched in the bytes of the latest read: a response whose final CRLFCRLF is split across two segments is never recognised, Handshake blocks and the frames that follow are swallowed into the handshake buffer")
 			c.check(looped && term, upgrade, "read response", in.Pos(), "reads until the blank line that ends the headers", "the response is read with a single Read (or the loop does not look for the header terminator): a response delivered in several segments fails to parse")
 		})
 		if n == 0 {
@@ -525,6 +559,24 @@ func runC18(c *Ctx) {
 			}
 			seen[f] = true
 			c.check(reinit[f], w.reset, "field "+f.Name(), w.reset.Pos(), "re-initialised for the next session", "field "+f.Name()+" is written during a session (by "+strings.Join(written[f], ", ")+") but neither reset() nor init() re-initialises it: state of the previous connection leaks into the next handshake")
+		}
+	}
+
+	// ------------------------------------------------------------------------------------------------ R7
+	c.rule("C18-R7", "the failure is reported: nothing that runs inside the RawConn.Control callback (dial completion, upgrade and whatever they call) closes a connection - Close would wait for the reference Control holds", 3)
+	{
+		under := underControl(p, newE2(p))
+		for _, fn := range sortedFuncs(under) {
+			c.touch(fn)
+			bad := ""
+			var pos token.Pos = fn.Pos()
+			eachInstr(fn, func(in ssa.Instruction) {
+				if bad == "" && closesConnection(in) {
+					bad = under[fn]
+					pos = in.Pos()
+				}
+			})
+			c.check(bad == "", fn, "no close under Control", pos, "runs inside RawConn.Control ("+under[fn]+") and closes nothing", "a connection is closed while RawConn.Control holds a reference to its descriptor ("+bad+"): net.Conn.Close waits for that reference, the handshake never returns and its callback never runs")
 		}
 	}
 }
